@@ -40,7 +40,9 @@ EXPLANATION = (
     ' '
     "R-C12.5 also requires the null exemption of AddField's missing-initial guard to be a truthiness test; R-C12.4 treats fail() as non-returning and is flow-sensitive about rebinding."
     ' '
-    'R-C12.13 = R-C15.8; R-C12.14 SimulationFailure and CannotSimulate are not related by inheritance.')
+    'R-C12.13 = R-C15.8; R-C12.14 SimulationFailure and CannotSimulate are not related by inheritance.'
+    ' '
+    'R-C12.15 ModelSignature.diff compares Meta.indexes / Meta.constraints signatures as sequences (no set()/sorted()/len() collapse of either side): order and multiplicity differences keep the gate shut.')
 NOT_DECIDED = (
     'That every perturbed evolution is in fact rejected (quantifies over '
     'evolutions and needs the diff/simulate semantics executed).')
@@ -898,7 +900,46 @@ def r14_rejection_is_not_cannot_simulate(ctx, rule_id='R-C12.14'):
                'SimulationFailure and CannotSimulate are unrelated classes')
 
 
+def r15_meta_lists_diffed_as_sequences(ctx):
+    """The gate ("simulated signature == current models, else refuse before
+    any SQL") is Diff.is_empty(), which rests on ModelSignature.diff().
+    Meta.indexes / Meta.constraints are *lists*: an evolution whose
+    ChangeMeta duplicates or re-orders an entry creates other SQL and stores
+    another signature than the models have.  diff() therefore compares the
+    two sequences as sequences; collapsing either side into a set (or
+    sorting it) lets such an evolution through the gate."""
+    ctx.rule('R-C12.15')
+    p = ctx.program
+    f = p.func('signature', 'ModelSignature.diff')
+    from ..util import expand_expr
+    n = 0
+    for c in walk_no_nested(f.node):
+        if not isinstance(c, ast.Compare):
+            continue
+        e = expand_expr(f, c)
+        txt = unparse(e)
+        if 'index_sigs' not in txt and 'constraint_sigs' not in txt:
+            continue
+        n += 1
+        lossy = [x for x in [e.left] + list(e.comparators)
+                 if isinstance(x, ast.Call) and (call_name(x) or '') in (
+                     'set', 'frozenset', 'sorted', 'len')]
+        if lossy:
+            ctx.finding(f, c, 'ModelSignature.diff compares %s: entries '
+                        'that differ only in order or multiplicity are '
+                        'reported as unchanged, so an evolution producing '
+                        'them passes the "models fully resolved" gate and is '
+                        'executed' % ' '.join(unparse(c).split()),
+                        key='meta-list-diffed-lossily:%s' % (
+                            'indexes' if 'index_sigs' in txt
+                            else 'constraints'))
+        else:
+            ctx.ok(f, 'index / constraint signatures diffed as sequences', c)
+    ctx.floor('index/constraint comparisons in ModelSignature.diff', n, 2)
+
+
 def run(ctx):
+    r15_meta_lists_diffed_as_sequences(ctx)
     r14_rejection_is_not_cannot_simulate(ctx)
     r13_app_lookup_through_accessor(ctx)
     r12_defaults_precedence(ctx)
